@@ -36,7 +36,12 @@ type concSpec struct {
 	NarrowSub   bool  `json:"narrow_sub"`   // the cancelled subscription only matches writer 0
 	SharedQuery bool  `json:"shared_query"` // a second subscription built from the same query object stays active
 	WithHook    bool  `json:"with_hook"`    // a pass-through PrePut hook is cancelled as well
-	ConcRace    bool  `json:"-"`
+	// Cancellers: how many subscriptions are cancelled at the same moment, each
+	// by its own goroutine (0 = 1). DoubleCancel: one more goroutine cancels the
+	// first of them a second time at the same moment.
+	Cancellers   int  `json:"cancellers"`
+	DoubleCancel bool `json:"double_cancel"`
+	ConcRace     bool `json:"-"`
 }
 
 type cwrite struct {
@@ -211,19 +216,36 @@ func runConc(t fataler, spec concSpec) {
 	}
 	w := database.NewInterface(&database.Options{Local: true, Internal: true})
 
-	// subscriptions
+	// subscriptions, in registration order: one that stays active, the ones
+	// to be cancelled, optionally one built from the query object of the first
+	// cancelled one, and a last one that stays active (the neighbour behind the
+	// cancelled ones in the controller's list)
+	nc := spec.Cancellers
+	if nc < 1 {
+		nc = 1
+	}
 	subAll, err := w.Subscribe(query.New(p.fullKey("")))
 	if err != nil {
 		failf("Subscribe failed: %v", err)
 	}
-	cPrefix := ""
-	if spec.NarrowSub {
-		cPrefix = "w0/"
-	}
-	cQuery := query.New(p.fullKey(cPrefix))
-	subC, err := w.Subscribe(cQuery)
-	if err != nil {
-		failf("Subscribe failed: %v", err)
+	cPrefixes := make([]string, nc)
+	cSubs := make([]*database.Subscription, nc)
+	var cQuery *query.Query
+	for j := 0; j < nc; j++ {
+		switch {
+		case j == 0 && spec.NarrowSub:
+			cPrefixes[j] = "w0/"
+		case j > 0 && j%2 == 1:
+			cPrefixes[j] = fmt.Sprintf("w%d/", j%k)
+		}
+		q := query.New(p.fullKey(cPrefixes[j]))
+		if j == 0 {
+			cQuery = q
+		}
+		cSubs[j], err = w.Subscribe(q)
+		if err != nil {
+			failf("Subscribe failed: %v", err)
+		}
 	}
 	var subShared *database.Subscription
 	if spec.SharedQuery {
@@ -231,6 +253,10 @@ func runConc(t fataler, spec concSpec) {
 		if err != nil {
 			failf("Subscribe failed: %v", err)
 		}
+	}
+	subTail, err := w.Subscribe(query.New(p.fullKey("")))
+	if err != nil {
+		failf("Subscribe failed: %v", err)
 	}
 	var ph *passHook
 	var rh *database.RegisteredHook
@@ -251,7 +277,7 @@ func runConc(t fataler, spec concSpec) {
 	writes := make([][]cwrite, k)        // what each writer wrote, in its order
 	started := make([]atomic.Int64, k)   // writes begun
 	completed := make([]atomic.Int64, k) // writes whose Put/Delete returned
-	panics := make(chan string, k+2)
+	panics := make(chan string, k+nc+8)
 	var wg sync.WaitGroup
 	for i := 0; i < k; i++ {
 		// the write lists are fixed before the goroutines start
@@ -295,17 +321,46 @@ func runConc(t fataler, spec concSpec) {
 		}(i)
 	}
 
-	// canceller
+	// cancellers: nc goroutines (plus one more cancelling the first subscription
+	// a second time if DoubleCancel), armed by the coordinator when the drawn
+	// moment has come and released together by a spinning barrier, so that their
+	// Cancel calls overlap
+	ncg := nc
+	if spec.DoubleCancel {
+		ncg++
+	}
 	completedBefore := make([]int64, k)
 	startedAfter := make([]int64, k)
 	hookCompletedBefore := make([]int64, k)
-	var cancelErr, hookCancelErr error
+	cancelErrs := make([]error, ncg)
+	var hookCancelErr error
+	armed := make(chan struct{})
+	var atBarrier atomic.Int64
+	var cwg sync.WaitGroup
+	for j := 0; j < ncg; j++ {
+		cwg.Add(1)
+		go func(j int) {
+			defer cwg.Done()
+			defer func() {
+				if r := recover(); r != nil {
+					panics <- fmt.Sprintf("canceller %d: %v", j, r)
+				}
+			}()
+			sub := cSubs[j%nc]
+			<-armed
+			atBarrier.Add(1)
+			for atBarrier.Load() < int64(ncg) {
+				// spin: all cancellers leave the barrier within a few instructions
+			}
+			cancelErrs[j] = sub.Cancel()
+		}(j)
+	}
 	wg.Add(1)
 	go func() {
 		defer wg.Done()
 		defer func() {
 			if r := recover(); r != nil {
-				panics <- fmt.Sprintf("canceller: %v", r)
+				panics <- fmt.Sprintf("coordinator: %v", r)
 			}
 			if spec.Mode == 1 {
 				select {
@@ -326,7 +381,8 @@ func runConc(t fataler, spec concSpec) {
 		for i := range completedBefore {
 			completedBefore[i] = completed[i].Load()
 		}
-		cancelErr = subC.Cancel()
+		close(armed)
+		cwg.Wait()
 		for i := range startedAfter {
 			startedAfter[i] = started[i].Load()
 		}
@@ -343,11 +399,34 @@ func runConc(t fataler, spec concSpec) {
 	for msg := range panics {
 		failf("CANCEL/PANIC: %s", msg)
 	}
-	if cancelErr != nil {
-		failf("CANCEL: Subscription.Cancel returned %v", cancelErr)
+	for j, err := range cancelErrs {
+		if err != nil {
+			failf("CANCEL: Subscription.Cancel (canceller %d) returned %v", j, err)
+		}
 	}
 	if hookCancelErr != nil {
 		failf("HOOK: RegisteredHook.Cancel returned %v", hookCancelErr)
+	}
+
+	// later writes: after every Cancel returned, one more write per writer key.
+	// They must not panic, must not reach a cancelled feed and must reach every
+	// subscription that is still active.
+	concWrites := make([]int, k)
+	for i := 0; i < k; i++ {
+		concWrites[i] = len(writes[i])
+		wr := cwrite{key: fmt.Sprintf("%sw%d/0", p.ns, i), q: int64(i*1000 + 900)}
+		func() {
+			defer func() {
+				if r := recover(); r != nil {
+					failf("CANCEL/PANIC: a write after all Cancel calls returned panicked: %v", r)
+				}
+			}()
+			cur := srec{V: 1, S: "s0", Q: wr.q}
+			if err := w.Put(newWrapper(p.dbName+":"+wr.key, cur.payload(), false, false)); err != nil {
+				failf("a write after the Cancel calls failed: %v", err)
+			}
+		}()
+		writes[i] = append(writes[i], wr)
 	}
 
 	// expected per-writer sequences
@@ -395,43 +474,56 @@ func runConc(t fataler, spec concSpec) {
 			}
 		}
 	}
-	checkComplete("all", "", subAll)
+	checkComplete("first", "", subAll)
 	if subShared != nil {
-		checkComplete("shared-query", cPrefix, subShared)
+		checkComplete("shared-query", cPrefixes[0], subShared)
 	}
+	checkComplete("last", "", subTail)
 
-	// the cancelled subscription: closed; per writer a prefix of its writes,
-	// containing at least those completed before Cancel was called and at most
-	// those started before Cancel returned
-	items, closed := drain(subC)
-	if !closed {
-		failf("CANCEL: the feed of the cancelled subscription is not closed after Cancel returned")
-	}
-	got := perWriter(items)
-	for i := 0; i < k; i++ {
-		var want []delivery
-		var nBefore, nStarted int
-		for n, wr := range writes[i] {
-			if !matches(cPrefix, wr) {
-				continue
+	// every cancelled subscription: closed; per writer a prefix of its
+	// concurrent-phase writes, containing at least those completed before the
+	// cancellers were released and at most those started before all Cancel
+	// calls had returned
+	partial := false
+	for j := 0; j < nc; j++ {
+		items, closed := drain(cSubs[j])
+		if !closed {
+			failf("CANCEL: the feed of cancelled subscription %d is not closed after Cancel returned", j)
+		}
+		if n := 0; true {
+			for i := 0; i < k; i++ {
+				n += concWrites[i]
 			}
-			want = append(want, delivery{key: wr.key, q: wr.q, s: "s0", deleted: wr.deleted})
-			if int64(n) < completedBefore[i] {
-				nBefore++
-			}
-			if int64(n) < startedAfter[i] {
-				nStarted++
+			if len(items) > 0 && len(items) < n {
+				partial = true
 			}
 		}
-		g := got[i]
-		if len(g) > len(want) || !sameConc(g, want[:len(g)]) {
-			failf("DELIVERY: cancelled subscription received for writer %d%s, which is not a prefix of its writes%s", i, fmtDeliveries(g), fmtDeliveries(want))
-		}
-		if len(g) < nBefore {
-			failf("DELIVERY: cancelled subscription received %d writes of writer %d, but %d matching writes had completed before Cancel was called:%s", len(g), i, nBefore, fmtDeliveries(g))
-		}
-		if len(g) > nStarted {
-			failf("CANCEL: cancelled subscription received %d writes of writer %d, but only %d matching writes had started when Cancel returned", len(g), i, nStarted)
+		got := perWriter(items)
+		for i := 0; i < k; i++ {
+			var want []delivery
+			var nBefore, nStarted int
+			for n, wr := range writes[i][:concWrites[i]] {
+				if !matches(cPrefixes[j], wr) {
+					continue
+				}
+				want = append(want, delivery{key: wr.key, q: wr.q, s: "s0", deleted: wr.deleted})
+				if int64(n) < completedBefore[i] {
+					nBefore++
+				}
+				if int64(n) < startedAfter[i] {
+					nStarted++
+				}
+			}
+			g := got[i]
+			if len(g) > len(want) || !sameConc(g, want[:len(g)]) {
+				failf("DELIVERY: cancelled subscription %d received for writer %d%s, which is not a prefix of its writes before the Cancel%s", j, i, fmtDeliveries(g), fmtDeliveries(want))
+			}
+			if len(g) < nBefore {
+				failf("DELIVERY: cancelled subscription %d received %d writes of writer %d, but %d matching writes had completed before Cancel was called:%s", j, len(g), i, nBefore, fmtDeliveries(g))
+			}
+			if len(g) > nStarted {
+				failf("CANCEL: cancelled subscription %d received %d writes of writer %d, but only %d matching writes had started when Cancel returned", j, len(g), i, nStarted)
+			}
 		}
 	}
 	if ph != nil {
@@ -454,12 +546,29 @@ func runConc(t fataler, spec concSpec) {
 			}
 		}
 	}
-	_ = subAll.Cancel()
-	if subShared != nil {
-		_ = subShared.Cancel()
+	// a cancelled subscription can be cancelled again, an active one can still be cancelled
+	for j := 0; j < nc; j++ {
+		if err := cSubs[j].Cancel(); err != nil {
+			failf("CANCEL: a second Cancel returned %v", err)
+		}
+	}
+	for _, sub := range []*database.Subscription{subAll, subShared, subTail} {
+		if sub == nil {
+			continue
+		}
+		if err := sub.Cancel(); err != nil {
+			failf("CANCEL: Cancel of an active subscription returned %v", err)
+		}
+		if _, closed := drain(sub); !closed {
+			failf("CANCEL: the feed of a subscription that stayed active is not closed by its own Cancel (it was no longer registered)")
+		}
 	}
 
 	stats.Class(fmt.Sprintf("conc_mode_%d", spec.Mode))
+	stats.Class(fmt.Sprintf("conc_cancellers_%d", nc))
+	if spec.DoubleCancel {
+		stats.Class("conc_double_cancel_of_one_subscription")
+	}
 	if sc.graceExpired.Load() > 0 {
 		stats.Class("conc_park_grace_expired")
 	}
@@ -467,21 +576,22 @@ func runConc(t fataler, spec concSpec) {
 	if sc.reached["db.put.stored"] > 0 {
 		stats.Class("conc_reached_db.put.stored")
 	}
-	if sc.reached["db.sub.cancel"] > 0 {
-		stats.Class("conc_reached_db.sub.cancel")
+	if sc.reached["db.sub.cancel"] >= 2 {
+		stats.Class("conc_several_cancels_reached_db.sub.cancel")
 	}
 	sc.mu.Unlock()
 	var nb, na int64
 	for i := 0; i < k; i++ {
 		nb += completedBefore[i]
-		na += int64(len(writes[i])) - startedAfter[i]
+		na += int64(concWrites[i]) - startedAfter[i]
 	}
 	if nb > 0 && na > 0 {
 		stats.Class("conc_cancel_in_the_middle")
 	}
-	if len(items) < total && len(items) > 0 {
+	if partial {
 		stats.Class("conc_cancelled_feed_partial")
 	}
+	_ = total
 }
 
 // sameConc compares deliveries; for deletes the Q is that of the deleted
@@ -524,6 +634,8 @@ func genConc(t *rapid.T, backends []string) concSpec {
 	spec.NarrowSub = rapid.Bool().Draw(t, "narrow")
 	spec.SharedQuery = rapid.Bool().Draw(t, "shared")
 	spec.WithHook = rapid.Bool().Draw(t, "hook")
+	spec.Cancellers = rapid.SampledFrom([]int{1, 2, 2, 3, 3, 4}).Draw(t, "cancellers")
+	spec.DoubleCancel = rapid.SampledFrom([]bool{false, false, false, true}).Draw(t, "double_cancel")
 	return spec
 }
 
@@ -533,7 +645,7 @@ func TestPropConcurrent(t *testing.T) {
 		runConc(t, spec)
 		return
 	}
-	backends := backendsFromEnv()
+	backends := concBackendsFromEnv()
 	rapid.Check(t, func(t *rapid.T) {
 		spec := genConc(t, backends)
 		runConc(t, spec)
